@@ -12,7 +12,12 @@ const P32: u64 = 1 << 32;
 /// a short mutation history on slot `t` (which must exist)
 pub fn history(r: &mut Rng, out: &mut String, t: &str, c: &Ctx, nops: u64) {
     for _ in 0..nops {
-        match r.below(16) {
+        match r.below(17) {
+            16 => {
+                // a completely full 16-bit chunk inside a partition (cardinality field 0xFFFF), or one value short of it
+                let base = (c.pkey(r) << 32) | ((r.below(3)) << 16);
+                writeln!(out, "tinsert_range {} in:{} in:{}", t, base, base + 65535 - r.below(2)).unwrap()
+            }
             0..=5 => writeln!(out, "tinsert {} {}", t, value64(r, c)).unwrap(),
             6..=9 => {
                 let (lo, hi) = range_tokens64(r, c, false);
